@@ -1,9 +1,143 @@
-(* Props/C11.v -- property C11 (stub while the correspondence is being developed). *)
+(* Props/C11.v -- property C11: scaling transforms change optimizer coordinates only, not user-domain
+   behaviour.  Only statements; each is closed by a lemma of Proofs/Transforms.v.  Everything is over exact
+   rationals, for vectors of any length, positive scales (non-zero is enough for the round trip) and arbitrary
+   offsets; bounds are extended reals, so every bound kind (finite, -inf, +inf, equality) is covered.
+   [veq] / [meq] are component-wise == on vectors / lists of rows, [eeq] is == on extended reals. *)
 From Coq Require Import QArith List Bool.
-From Ropt Require Import Base.Num Model.ConstraintInfo Model.Transforms Proofs.Transforms.
+From Ropt Require Import Base.Num Base.ListX Model.ConstraintInfo Model.Transforms Proofs.ConstraintInfo Proofs.Transforms.
 Import ListNotations.
 Open Scope Q_scope.
 
-Theorem C11_stub : forall s o y, ~ s == 0 -> (y * s + o - o) / s == y.
-Proof. exact to_opt1_from_opt1. Qed.
-Print Assumptions C11_stub.
+(* mapping to the optimizer domain and back is the identity (both ways) *)
+Theorem C11_roundtrip : forall ss os x,
+  length ss = length x -> length os = length x -> nonzero ss ->
+  veq (from_opt ss os (to_opt ss os x)) x /\ veq (to_opt ss os (from_opt ss os x)) x.
+Proof. intros; split; [apply roundtrip_from_to | apply roundtrip_to_from]; assumption. Qed.
+
+(* a point satisfies the user's bounds iff its image satisfies the transformed bounds (infinite entries incl.) *)
+Theorem C11_bounds_iff : forall ss os lb ub x,
+  length ss = length x -> length os = length x -> length lb = length x -> length ub = length x -> positive ss ->
+  all_within (bounds_to_opt ss os lb) (bounds_to_opt ss os ub) (to_opt ss os x) = all_within lb ub x.
+Proof. exact bounds_iff_bool. Qed.
+
+(* linear constraints: the transformation is defined whenever no scaled row vanishes ... *)
+Theorem C11_linear_defined : forall ss os lc,
+  (forall r, In r (l_coef lc) -> exists a, In a (zipw Qmult r ss) /\ ~ a == 0) ->
+  exists lc' eq, linear_to_opt ss os lc = Some (lc', eq).
+Proof. exact linear_to_opt_defined. Qed.
+
+(* ... every row i of the result is the user's row with columns scaled, divided by its equation scaling
+   e = max |coefficient| > 0, right-hand sides corrected by A.offsets; for every bound kind
+   l <= A x <= u  <=>  l^ <= A^ x^ <= u^, and the back-transformed differences (A^ x^ - l^) * e are exactly
+   the user-domain differences A x - l *)
+Theorem C11_linear_iff : forall ss os lc lc' eq x i r l u,
+  length ss = length x -> length os = length x -> positive ss -> length r = length x ->
+  linear_to_opt ss os lc = Some (lc', eq) ->
+  nth_error (l_coef lc) i = Some r -> nth_error (l_lower lc) i = Some l -> nth_error (l_upper lc) i = Some u ->
+  exists e r' l' u',
+    nth_error eq i = Some e /\ 0 < e /\ e = qabs_max (zipw Qmult r ss) /\
+    nth_error (l_coef lc') i = Some r' /\ nth_error (l_lower lc') i = Some l' /\ nth_error (l_upper lc') i = Some u' /\
+    within l' u' (dot r' (to_opt ss os x)) = within l u (dot r x) /\
+    eeq (escale e (ediff (dot r' (to_opt ss os x)) l')) (ediff (dot r x) l) /\
+    eeq (escale e (ediff (dot r' (to_opt ss os x)) u')) (ediff (dot r x) u).
+Proof.
+  intros ss os lc lc' eq x i r l u H1 H2 Hp Hr Hlin Er El Eu.
+  destruct (linear_to_opt_row _ _ _ _ _ _ _ _ _ Hlin Er El Eu) as (e & He & Hpos & Hdef & Hr' & Hl' & Hu').
+  destruct (linear_row_invariant ss os x r l u e Hr H1 H2 Hp Hpos) as (A & B & C).
+  exists e, (map (fun a => a / e) (zipw Qmult r ss)), (Tb e (dot r os) l), (Tb e (dot r os) u).
+  repeat (split; [assumption|]). assumption.
+Qed.
+
+(* bounds and linear constraints together, on the configuration as transformed at validation *)
+Theorem C11_feasible_iff : forall n ss os nls cfg cfg' eqo x,
+  length x = n -> length ss = n -> length os = n -> positive ss -> ccfg_sized n cfg None nls ->
+  ccfg_to_opt ss os nls cfg = Some (cfg', eqo) ->
+  feasible_point cfg' (to_opt ss os x) = feasible_point cfg x.
+Proof. exact feasible_point_iff. Qed.
+
+(* boundary handling of perturbations is equivariant under the positive affine map T v = (v - o) / s,
+   for all three boundary types, every repeat count and every bound kind *)
+Theorem C11_apply_bounds_equivariant : forall s o, 0 < s -> forall rep t lb ub y,
+  apply_bounds_1 rep t (Tb s o lb) (Tb s o ub) (T s o y) == T s o (apply_bounds_1 rep t lb ub y).
+Proof. intros s o Hs rep t lb ub y. apply apply_bounds_T; [exact Hs | reflexivity]. Qed.
+
+(* the evaluator receives the same user-domain vectors (perturbed ones included): two validated versions of
+   one user configuration -- in particular the untransformed one (scales 1, offsets 0) and any positively
+   scaled one -- yield the same rows for every kind of call, every point, all samples; absolute magnitudes
+   (m / s, then * s) and relative magnitudes (from the transformed bounds) included *)
+Theorem C11_requests_invariant : forall rep R k n u ss1 os1 m1 ss2 os2 m2 x samples,
+  ucfg_sized n u -> length x = n -> Forall (Forall (fun z => length z = n)) samples ->
+  length ss1 = n -> length os1 = n -> positive ss1 -> validate_vars ss1 os1 u = Some m1 ->
+  length ss2 = n -> length os2 = n -> positive ss2 -> validate_vars ss2 os2 u = Some m2 ->
+  meq (requests rep R k ss1 os1 m1 (to_opt ss1 os1 x) samples) (requests rep R k ss2 os2 m2 (to_opt ss2 os2 x) samples).
+Proof. exact requests_invariant. Qed.
+
+Corollary C11_requests_equal_untransformed : forall rep R k n u ss os m0 m x samples,
+  ucfg_sized n u -> length x = n -> Forall (Forall (fun z => length z = n)) samples ->
+  length ss = n -> length os = n -> positive ss ->
+  validate_vars (ones n) (zeros n) u = Some m0 -> validate_vars ss os u = Some m ->
+  meq (requests rep R k ss os m (to_opt ss os x) samples)
+      (requests rep R k (ones n) (zeros n) m0 (to_opt (ones n) (zeros n) x) samples).
+Proof.
+  intros rep R k n u ss os m0 m x samples Hu Hx Hs H1 H2 Hp Hv0 Hv.
+  apply (requests_invariant rep R k n u ss os m (ones n) (zeros n) m0 x samples); auto;
+    [apply ones_length | apply zeros_length | apply ones_pos].
+Qed.
+
+(* user-domain results: per-realization values (diagonal scale round trip) ... *)
+Theorem C11_values_invariant : forall sc f, length sc = length f -> nonzero sc ->
+  veq (fun_from_opt sc (fun_to_opt sc f)) f.
+Proof. exact fun_roundtrip. Qed.
+
+(* ... function values, for every estimator that is homogeneous under positive scaling ... *)
+Theorem C11_function_values_invariant : forall est : list Q -> Q,
+  (forall c f, 0 < c -> est (map (fun v => v / c) f) == est f / c) ->
+  forall s col, 0 < s -> est (map (fun v => v / s) col) * s == est col.
+Proof. exact function_value_invariant. Qed.
+
+(* ... which the normalised weighted mean (the default estimator) is *)
+Theorem C11_weighted_mean_homogeneous : forall w f s, wmean w (map (fun v => v / s) f) == wmean w f / s.
+Proof. exact wmean_homogeneous. Qed.
+
+(* ... and all bound / linear / non-linear differences and violations: the constraint information computed
+   in the optimizer domain and mapped back equals the one computed directly in the user domain *)
+Theorem C11_constraint_info_invariant : forall n ss os nls cfg cfg' eqo x cons,
+  length x = n -> length ss = n -> length os = n -> positive ss -> positive nls -> ccfg_sized n cfg cons nls ->
+  ccfg_to_opt ss os nls cfg = Some (cfg', eqo) ->
+  created_eq (created_from_opt (Some ss) eqo (Some nls)
+                (create cfg' (to_opt ss os x) (option_map (fun_to_opt nls) cons)))
+             (create cfg x cons).
+Proof. exact constraint_info_invariant. Qed.
+
+(* non-vacuity: a concrete scaled problem meets every hypothesis; the perturbed vector crosses its bounds *)
+Example C11_example :
+  let u := {| u_x0 := [1 # 2; 0]; u_lb := [Fin 0; NInf]; u_ub := [Fin 1; Fin 2];
+              u_mag := [1 # 4; 1]; u_pt := [PRel; PAbs]; u_bt := [BMirror; BTrunc] |} in
+  let ss := [2; 3] in let os := [1; -1] in
+  let lc := {| l_coef := [[1; -2]]; l_lower := [NInf]; l_upper := [Fin 1] |} in
+  ucfg_sized 2 u /\ positive ss /\
+  (exists m0 m, validate_vars (ones 2) (zeros 2) u = Some m0 /\ validate_vars ss os u = Some m /\
+     forallb2 (forallb2 Qeqb) (requests 3 1 RBoth ss os m (to_opt ss os (u_x0 u)) [[[3; 4]]])
+              [[1 # 2; 0]; [3 # 4; 2]] = true /\
+     forallb2 (forallb2 Qeqb) (requests 3 1 RBoth (ones 2) (zeros 2) m0 (to_opt (ones 2) (zeros 2) (u_x0 u)) [[[3; 4]]])
+              [[1 # 2; 0]; [3 # 4; 2]] = true) /\
+  (exists lc' eq, linear_to_opt ss os lc = Some (lc', eq) /\ forallb2 Qeqb eq [6] = true).
+Proof.
+  cbv zeta. split; [repeat split|]. split; [repeat constructor; reflexivity|]. split.
+  - eexists; eexists. split; [vm_compute; reflexivity|]. split; [vm_compute; reflexivity|].
+    split; vm_compute; reflexivity.
+  - eexists; eexists. split; vm_compute; reflexivity.
+Qed.
+
+Print Assumptions C11_roundtrip.
+Print Assumptions C11_bounds_iff.
+Print Assumptions C11_linear_defined.
+Print Assumptions C11_linear_iff.
+Print Assumptions C11_feasible_iff.
+Print Assumptions C11_apply_bounds_equivariant.
+Print Assumptions C11_requests_invariant.
+Print Assumptions C11_requests_equal_untransformed.
+Print Assumptions C11_values_invariant.
+Print Assumptions C11_function_values_invariant.
+Print Assumptions C11_weighted_mean_homogeneous.
+Print Assumptions C11_constraint_info_invariant.
